@@ -45,6 +45,8 @@ PROPS = {
     'C04': dict(suites=[('kv', [])], column='kv', relevant=rel_c04, title='Expiry',
                 # rejections owned by other properties (not about deadlines) that merely happen on keys carrying a deadline
                 ignore_foreign=True),
+    'C06': dict(suites=[('aclz', []), ('acla', [])], column='acl', relevant=lambda r: True, title='ACL authorization'),
+    'C11': dict(suites=[('acla', [])], column='auth', relevant=lambda r: True, title='Authentication and user lifecycle'),
     'C13': dict(suites=ALL_DATA, column='pure', clscol='pcls', relevant=lambda r: True, title='Read-only commands are pure'),
     'C14': dict(suites=[('hash', [])], column='kv', relevant=lambda r: r['name'] in HASH_CMDS, title='Hash commands'),
     'C15': dict(suites=[('list', [])], column='kv', relevant=lambda r: r['name'] in LIST_CMDS, title='List commands'),
@@ -233,7 +235,25 @@ def run_suite(cx, work, suite, args, seed, tier, replay=None):
         seq, model, detail, f = parse_verdict(l)
         verd[seq] = (model, detail, f)
     for l in open(tr):
-        if l.startswith('T '):
+        if l.startswith('Z ') or l.startswith('A '):
+            w = l.rstrip('\n').split(' ')
+            seq = w[1]
+            m = verd.get(seq, ('?', 'no verdict', {}))
+            cmd = []
+            kind, payload = '', b''
+            if l.startswith('A '):
+                i = w.index('C')
+                argc = int(w[i + 1])
+                cmd = [unx(x) for x in w[i + 2:i + 2 + argc]]
+                j = w.index('R', i + 2 + argc)
+                kind, payload = w[j + 1], unx(w[j + 2])
+                name = ' '.join(c.decode('latin1').lower() for c in cmd[:2]) if cmd and cmd[0].lower() in (b'acl', b'pubsub') else (cmd[0].decode('latin1').lower() if cmd else '')
+            else:
+                kind = w[-1]
+                name = 'authorize'
+            rows.append(dict(seq=seq, now=0, db=0, cmd=cmd, kind=kind, payload=payload, pre='', post='', name=name,
+                             model=m[0], detail=m[1], f=m[2], suite=suite, line=l[0]))
+        elif l.startswith('T '):
             t = parse_tline(l.rstrip('\n'))
             m = verd.get(t['seq'], ('?', 'no verdict', {}))
             t['model'], t['detail'], t['f'] = m
@@ -251,11 +271,14 @@ def run_suite(cx, work, suite, args, seed, tier, replay=None):
 
 
 def seq_prefix(seqmap, seqid):
+    if seqid in seqmap and 'z' in seqmap[seqid]:
+        return seqmap[seqid]                      # a single authorization decision
     sid, idx = seqid.rsplit('.', 1)
     s = seqmap.get(sid)
     if s is None:
         return None
-    return dict(id=sid, opts=s.get('opts', {}), ops=s['ops'][:int(idx) + 1])
+    idx = int(idx.rstrip('r'))
+    return dict(id=sid, opts=s.get('opts', {}), ops=s['ops'][:idx + 1])
 
 
 def pretty_cmd(cmd):
@@ -290,6 +313,8 @@ def failing(row, column):
 
 def shrink(cx, work, suite, seq, pred, budget=60):
     """greedy one-op-at-a-time removal keeping `pred(last row)` true"""
+    if 'ops' not in seq:
+        return seq
     ops = seq['ops']
     tries = 0
     i = 0
@@ -305,7 +330,7 @@ def shrink(cx, work, suite, seq, pred, budget=60):
             rows = replay_seq(cx, work, suite, cand, 'shrink')
         except Exception:
             rows = []
-        if rows and len(rows) == len(cand['ops']) - sum(1 for o in cand['ops'] if not o.get('cmd')) and pred(rows[-1]):
+        if rows and pred(rows[-1]):
             ops = cand['ops']
         else:
             i += 1
@@ -443,7 +468,7 @@ def decide(cx, prop, tier, seed, t_start):
 
     # 1. a spec rejection outside the listed findings (or a listed class failing differently from the model)
     if rejs_unknown:
-        r0 = sorted(rejs_unknown, key=lambda r: int(r['seq'].rsplit('.', 1)[1]))[0]
+        r0 = sorted(rejs_unknown, key=lambda r: int(re.sub(r'\D', '', r['seq'].rsplit('.', 1)[-1]) or 0))[0]
         emit_violation('spec-rejection', r0, 'spec verdict %s class %s; %d such transitions' % (r0['f'].get(col), r0['f'].get(clscol), len(rejs_unknown)), True)
     # 2. model/implementation disagreement with the spec still satisfied at those transitions
     elif diffs:
@@ -465,7 +490,7 @@ def decide(cx, prop, tier, seed, t_start):
     # ---- evidence
     distinct = set()
     for r in rel:
-        if r['pre'] != r['post'] or (r['kind'] == 'ok' and r['payload'] not in (b'$-1\r\n', b'')):
+        if r.get('line') in ('Z', 'A') or r['pre'] != r['post'] or (r['kind'] == 'ok' and r['payload'] not in (b'$-1\r\n', b'')):
             distinct.add((r['name'], len(r['cmd']), r['kind'], r['f'].get(col, 'na'), r['f'].get(clscol, '-'), r['f'].get('shape', '')))
     samples = []
     seen = set()
